@@ -96,7 +96,7 @@ def quant_waves(ctx):
     for i in range(0, len(jobs), 4):
         waves.append(jobs[i:i + 4])
     n_s = 0
-    for _ in range(5):
+    for _ in range(4):
         ids = sample_ids(rng, 60000, 'flat3') + sample_ids(rng, 110000, 'sub')
         n_s += len(ids)
         rng.shuffle(ids)
@@ -113,7 +113,7 @@ def run_quant(ctx):
     for wi, jobs in enumerate(waves):
         t0 = time.time()
         try:
-            rows, items, st = cq.gen_tables(jobs, nproc=16)
+            rows, items, st = cq.gen_tables(jobs, nproc=16, heap='1500m')
         except tlc.TLCError as e:
             raise common.Machinery(str(e)) from e
         tot['gen_wall_s'] += time.time() - t0
@@ -144,7 +144,7 @@ def run_quant(ctx):
         traces = [{'id': k + 1, 'steps': steps[i:i + chunk]} for k, i in enumerate(range(0, len(steps), chunk))]
         nb = min(16, max(1, len(traces) // 2))
         batches = [{'traces': traces[b::nb]} for b in range(nb)]
-        verds = validate_parallel(ctx, batches, 'QuantTrace', nproc=16, heap='2g')
+        verds = validate_parallel(ctx, batches, 'QuantTrace', nproc=16, heap='1500m')
         for verd in verds:
             for tid, v in verd.items():
                 for (l, clause, klass) in v['bad']:
@@ -197,7 +197,7 @@ def run_match(ctx):
     nb = min(16, len(traces))
     order = sorted(range(len(traces)), key=lambda i: -len(traces[i]['steps']))
     batches = [{'traces': [traces[i] for i in order[b::nb]]} for b in range(nb)]
-    verds = validate_parallel(ctx, batches, 'MatchTrace', nproc=16, heap='3g')
+    verds = validate_parallel(ctx, batches, 'MatchTrace', nproc=16, heap='2g')
     for verd in verds:
         for tid, v in verd.items():
             tr = traces[tid - 1]
@@ -231,7 +231,7 @@ def run(ctx):
     parts = os.environ.get('C17_PARTS', 'mc,quant,match').split(',')  # development aid only; the default runs everything
     cfg = 'QuantMC' if ctx.quick else 'QuantMC_thorough'
     if 'mc' in parts:
-        ctx.model('QuantMC', cfg, required=('Second', 'PickFlat', 'PickSubseq'), workers=16, heap='6g')
+        ctx.model('QuantMC', cfg, required=('Second', 'PickFlat', 'PickSubseq'), workers=16, heap='4g')
     if 'quant' in parts:
         run_quant(ctx)
         ctx.require_clauses(QUANT_CLAUSES)
@@ -265,3 +265,77 @@ def replay(ctx, path):
             print('step', l, clause, klass, json.dumps(tr['steps'][l - 1])[:1500])
             ctx.violation(clause, klass, rp)
     return ctx.finish()
+
+
+# ----------------------------------------------------------------------------------------------------------------------
+def selftest(ctx):
+    """Binding demonstration: corrupt ONE recorded field of an accepted trace; TLC must reject it naming the right clause."""
+    import copy
+    from corpus.programs import PROGRAMS
+    ok = True
+    ids = [[13, 3, 0, 14], [9, 1, 0, 5], [96 + 18 * 26 + 7, 0, 0, 50]]      # a* . on aab ; a? a on ab ; (a b){..} on abab
+    rows, items, _ = cq.gen_tables([{'prods': [], 'ids': ids}], nproc=1)
+    rows.sort(key=lambda r: r['id'])
+    steps = cq.replay_rows(rows, items, 0, 2, nproc=1)
+    base = ctx.validate({'traces': [{'id': 1, 'steps': steps}]}, module='QuantTrace')[1]
+    known = {'elemstep', 'stalestatic'}
+    clean = [b for b in base['bad'] if b[2].split('/')[0] not in known]
+    print('quant base verdict:', clean or 'accepted')
+    ok &= not clean
+    acc_i = next(i for i, (r, s) in enumerate(zip(rows, steps)) if r['acc'] and any(o['acc'] and o['its'] for o in s['obs']))
+
+    def corrupt(fn, expect):
+        nonlocal ok
+        st = copy.deepcopy(steps)
+        fn(st[acc_i])
+        v = ctx.validate({'traces': [{'id': 1, 'steps': st}]}, module='QuantTrace')[1]
+        got = sorted({c for (l, c, k) in v['bad'] if l == acc_i + 1})
+        print(f'quant corrupt -> expect {expect}: got {got}')
+        ok &= expect in got
+
+    def c_its(s):
+        o = next(o for o in s['obs'] if o['acc'] and o['its'])
+        o['its'][0][2] += 1
+    corrupt(c_its, 'PfstCaptures')
+    corrupt(lambda s: s['obs'][0].__setitem__('acc', False), 'PfstAccept')
+    corrupt(lambda s: s['re'].__setitem__('acc', False), 'ReAccept')
+    corrupt(lambda s: s['re']['spans'][0].__setitem__(2, s['re']['spans'][0][2] + 1), 'ReSpans')
+    corrupt(lambda s: s['id'].__setitem__(0, 9999), 'RowInDomain')
+
+    tr, _ = cm.record_program(1, PROGRAMS[1], 0, 6, 6)
+    tr['id'] = 1
+    base = ctx.validate({'traces': [tr]}, module='MatchTrace')[1]
+    clean = [b for b in base['bad'] if not (b[1] == 'SearchIsFilter' and ('MNOTx' in b[2] or 'MANDx' in b[2] or b[2].endswith('compiter')))]
+    print('match base verdict:', clean or 'accepted')
+    ok &= not clean
+
+    def corrupt_m(pick, fn, expect):
+        nonlocal ok
+        t2 = copy.deepcopy(tr)
+        i = next(i for i, s in enumerate(t2['steps']) if pick(i, s, t2['steps']))
+        fn(t2['steps'][i])
+        v = ctx.validate({'traces': [t2]}, module='MatchTrace')[1]
+        got = sorted({c for (l, c, k) in v['bad'] if l >= i + 1} - {c for (l, c, k) in base['bad']})
+        print(f'match corrupt step {i + 1} -> expect {expect}: got {got}')
+        ok &= expect in got
+
+    def later_other_form(i, s, steps):
+        return s['k'] == 'match' and not s['src'] and s['acc'] and any(
+            x['k'] == 'match' and x['p'] == s['p'] and x['t'] == s['t'] and x['form'] != s['form'] for x in steps[:i])
+
+    def later_same_form(i, s, steps):
+        return s['k'] == 'match' and any(
+            x['k'] == 'match' and x['p'] == s['p'] and x['t'] == s['t'] and x['form'] == s['form'] for x in steps[:i])
+    corrupt_m(later_other_form, lambda s: s.__setitem__('tags', s['tags'] + ' '), 'StructureOnly')
+    corrupt_m(later_same_form, lambda s: s.__setitem__('acc', not s['acc']), 'HistoryFree')
+    corrupt_m(lambda i, s, st: s['k'] == 'match' and s['exp'] == 'own', lambda s: s.__setitem__('acc', False), 'OwnMatches')
+    corrupt_m(lambda i, s, st: s['k'] == 'match' and s['exp'] == 'mut', lambda s: s.__setitem__('acc', True), 'MutantRejected')
+    corrupt_m(lambda i, s, st: s['k'] == 'search' and len(s['found']) >= 2 and s['found'][0] != s['found'][1],
+              lambda s: s['found'].__setitem__(slice(0, 2), s['found'][1::-1]), 'SearchIsFilter')
+    corrupt_m(lambda i, s, st: s['k'] == 'search' and len(s['found']) >= 1, lambda s: s['found'].pop(), 'SearchIsFilter')
+    corrupt_m(lambda i, s, st: s['k'] == 'search' and len(s['found']) >= 1,
+              lambda s: s['ftags'].__setitem__(0, s['ftags'][0] + 'x'), 'SearchTags')
+    print('SELFTEST', 'OK' if ok else 'FAILED')
+    ctx.states = max(ctx.states, 1)
+    ctx.transitions = max(ctx.transitions, 1)
+    return 0 if ok else 2
